@@ -336,12 +336,30 @@ func (f *FibStrategyHashTable) InsertNextHopEnc(name enc.Name, nexthop uint64, c
 func (f *FibStrategyHashTable) ClearNextHopsEnc(name enc.Name) {
 	f.fibStrategyRWMutex.Lock()
 	defer f.fibStrategyRWMutex.Unlock()
+	f.clearNextHops(name)
+}
 
+// clearNextHops clears all nexthops for the specified prefix. The caller holds the write lock.
+func (f *FibStrategyHashTable) clearNextHops(name enc.Name) {
 	entry, ok := f.realTable[nameKey(name)]
 	if ok {
 		entry.nexthops = make([]*FibNextHopEntry, 0)
 		f.pruneTables(entry)
 	}
+}
+
+// SetNextHopsEnc replaces all nexthops of the specified prefix in a single step.
+func (f *FibStrategyHashTable) SetNextHopsEnc(name enc.Name, nexthops []FibNextHopEntry) {
+	f.fibStrategyRWMutex.Lock()
+	defer f.fibStrategyRWMutex.Unlock()
+
+	if len(nexthops) == 0 {
+		f.clearNextHops(name)
+		return
+	}
+
+	realEntry := f.insertEntryEnc(name)
+	realEntry.nexthops = newNextHops(nexthops)
 }
 
 // RemoveNextHop removes the specified nexthop entry from the specified prefix
